@@ -4,6 +4,7 @@
     are exercised by the driver "restart" on the real application).
     Each theorem is closed by a lemma of App/RestartModel.v. *)
 From Coq Require Import ZArith NArith List.
+From HV Require Import Base.Dec Feemarket.BaseFeeModel App.FeeReplicaModel App.ProcRestartModel App.ProcRestartProofs.
 From HV Require Import App.RestartModel.
 Import ListNotations.
 
@@ -311,3 +312,123 @@ Theorem C20_preante_gas_fixed_nonvacuous :
     = [([], 0%Z); ([3000%Z], 3000%Z)].
 Proof. exact preante_gas_fixed_nonvacuous. Qed.
 Print Assumptions C20_preante_gas_fixed_nonvacuous.
+
+(** ** The state of the operating-system process
+    A node is (db, mem, proc): proc is the package-level state of the process that hosts the
+    application (go-ethereum's common.Big1, sync.Once latches, registries filled by init
+    functions).  At a boundary the node keeps running (Keep), a new application object is built on
+    the database inside the same process (Reopen: mem := rebuild db, proc kept - what an
+    in-process "restart" of a test harness is), or the process exits and a new one starts
+    (NewProcess: mem := rebuild db, proc := fresh).  If steps and queries read the memory only up to
+    a relation that every step re-establishes with [rebuild db], and do not read the process state,
+    then THE CONTINUATION IS A FUNCTION OF (DATABASE, BLOCKS) ONLY: two nodes on the same database,
+    with any process states and any schedules of stops of the three kinds, report the same results,
+    databases (height, app hash) and query answers for all following blocks. *)
+Theorem C20_continuation_is_function_of_db_and_blocks :
+  forall (DB Mem P Block Result Q A : Type) (rebuild : DB -> Mem) (fresh : P)
+         (step : DB * Mem * P -> Block -> (DB * Mem * P) * Result) (query : DB * Mem * P -> Q -> A)
+         (R : Mem -> Mem -> Prop),
+    (forall a b, R a b -> R b a) -> (forall a b c, R a b -> R b c -> R a c) ->
+    step_reads_mem_through_not_proc DB Mem P Block Result step R ->
+    query_reads_mem_through_not_proc DB Mem P Q A query R ->
+    step_keeps_mem_rebuildable DB Mem P Block Result rebuild step R ->
+    forall qs db m1 m2 p1 p2 (bs : list Block) (ks1 ks2 : list stop),
+      R m1 (rebuild db) -> R m2 (rebuild db) ->
+      snd (prun DB Mem P Block Result Q A rebuild fresh step query qs (db, m1, p1) (pschedule Block ks1 bs))
+      = snd (prun DB Mem P Block Result Q A rebuild fresh step query qs (db, m2, p2) (pschedule Block ks2 bs)) /\
+      pdb DB Mem P (fst (prun DB Mem P Block Result Q A rebuild fresh step query qs (db, m1, p1) (pschedule Block ks1 bs)))
+      = pdb DB Mem P (fst (prun DB Mem P Block Result Q A rebuild fresh step query qs (db, m2, p2) (pschedule Block ks2 bs))).
+Proof. exact continuation_is_function_of_db_and_blocks. Qed.
+Print Assumptions C20_continuation_is_function_of_db_and_blocks.
+
+(** Any schedule of stops - real process restarts included - is indistinguishable from never stopping. *)
+Theorem C20_process_restart_equiv :
+  forall (DB Mem P Block Result Q A : Type) (rebuild : DB -> Mem) (fresh : P)
+         (step : DB * Mem * P -> Block -> (DB * Mem * P) * Result) (query : DB * Mem * P -> Q -> A)
+         (R : Mem -> Mem -> Prop),
+    (forall a b, R a b -> R b a) -> (forall a b c, R a b -> R b c -> R a c) ->
+    step_reads_mem_through_not_proc DB Mem P Block Result step R ->
+    query_reads_mem_through_not_proc DB Mem P Q A query R ->
+    step_keeps_mem_rebuildable DB Mem P Block Result rebuild step R ->
+    forall qs db m p (bs : list Block) (ks : list stop),
+      R m (rebuild db) ->
+      snd (prun DB Mem P Block Result Q A rebuild fresh step query qs (db, m, p) (pschedule Block ks bs))
+      = snd (prun DB Mem P Block Result Q A rebuild fresh step query qs (db, m, p) (pnever Block bs)) /\
+      pdb DB Mem P (fst (prun DB Mem P Block Result Q A rebuild fresh step query qs (db, m, p) (pschedule Block ks bs)))
+      = pdb DB Mem P (fst (prun DB Mem P Block Result Q A rebuild fresh step query qs (db, m, p) (pnever Block bs))).
+Proof. exact process_restart_equiv. Qed.
+Print Assumptions C20_process_restart_equiv.
+
+(** Right after a stop of either kind the node answers every query as before. *)
+Theorem C20_stop_query :
+  forall (DB Mem P Q A : Type) (rebuild : DB -> Mem) (fresh : P) (query : DB * Mem * P -> Q -> A) (R : Mem -> Mem -> Prop),
+    (forall a b, R a b -> R b a) -> (forall a b c, R a b -> R b c -> R a c) ->
+    query_reads_mem_through_not_proc DB Mem P Q A query R ->
+    forall k db m p q, R m (rebuild db) ->
+      query (apply_stop DB Mem P rebuild fresh k (db, m, p)) q = query (db, m, p) q.
+Proof. exact stop_query. Qed.
+Print Assumptions C20_stop_query.
+
+(** Instance: the fee-market node (store with the base fee and the gas figure of the parent block,
+    height; process state = the "one" of the minimum step).  As implemented the step does not read
+    the process state: all block histories, all schedules of stops, all process states. *)
+Theorem C20_fee_step_obligations :
+  step_reads_mem_through_not_proc fdb unit Z fblk (option Z) fee_step (fun _ _ => True) /\
+  query_reads_mem_through_not_proc fdb unit Z unit (option Z) fee_query (fun _ _ => True) /\
+  step_keeps_mem_rebuildable fdb unit Z fblk (option Z) fee_rebuild fee_step (fun _ _ => True).
+Proof. exact fee_step_obligations. Qed.
+Print Assumptions C20_fee_step_obligations.
+
+Theorem C20_fee_process_restart_equiv :
+  forall db m p1 p2 (bs : list fblk) (ks1 ks2 : list stop),
+    snd (prun fdb unit Z fblk (option Z) unit (option Z) fee_rebuild 1%Z fee_step fee_query [tt] (db, m, p1) (pschedule fblk ks1 bs))
+    = snd (prun fdb unit Z fblk (option Z) unit (option Z) fee_rebuild 1%Z fee_step fee_query [tt] (db, m, p2) (pschedule fblk ks2 bs)).
+Proof. exact fee_process_restart_equiv. Qed.
+Print Assumptions C20_fee_process_restart_equiv.
+
+Theorem C20_fee_process_restart_nonvacuous :
+  results (snd (fee_run px_node [(Keep, px_b); (Keep, px_b); (Keep, px_b)])) = [Some 7; Some 8; Some 9]%Z /\
+  results (snd (fee_run px_node [(Keep, px_b); (Keep, px_b); (NewProcess, px_b)])) = [Some 7; Some 8; Some 9]%Z /\
+  results (snd (fee_run px_node [(Keep, px_b); (Reopen, px_b); (NewProcess, px_b)])) = [Some 7; Some 8; Some 9]%Z /\
+  map (fun o => snd o) (snd (fee_run px_node [(Keep, px_b); (NewProcess, px_b)])) = [[Some 7]; [Some 8]]%Z.
+Proof. exact fee_process_restart_nonvacuous. Qed.
+Print Assumptions C20_fee_process_restart_nonvacuous.
+
+(** The converse witness: the minimum step taken from a process-global "one" that is updated in
+    place (math.BigMax handing out common.Big1).  Base fee 7, denominator 8, target 4,000,000,
+    every block declares 6,000,000 gas.  Never stopped: 7, 8, 16; RE-OPENED inside the process
+    before the third block: 7, 8, 16 as well (an in-process restart cannot see it); restarted as
+    a NEW PROCESS before the third block: 7, 8, 9 - same database at the boundary, different
+    continuation, different final database. *)
+Theorem C20_shared_one_breaks_process_restart_refuted :
+  results (snd (fee_run_shared px_node [(Keep, px_b); (Keep, px_b); (Keep, px_b)])) = [Some 7; Some 8; Some 16]%Z /\
+  results (snd (fee_run_shared px_node [(Keep, px_b); (Keep, px_b); (Reopen, px_b)])) = [Some 7; Some 8; Some 16]%Z /\
+  results (snd (fee_run_shared px_node [(Keep, px_b); (Keep, px_b); (NewProcess, px_b)])) = [Some 7; Some 8; Some 9]%Z /\
+  results (snd (fee_run_shared px_node [(Keep, px_b); (Keep, px_b); (Keep, px_b); (Keep, px_b)])) = [Some 7; Some 8; Some 16; Some 32]%Z /\
+  results (snd (fee_run_shared px_node [(Keep, px_b); (Keep, px_b); (Keep, px_b); (NewProcess, px_b)])) = [Some 7; Some 8; Some 16; Some 17]%Z /\
+  pdb fdb unit Z (fst (fee_run_shared px_node [(Keep, px_b); (Keep, px_b)]))
+    = pdb fdb unit Z (fst (fee_run_shared px_node [(Keep, px_b); (NewProcess, px_b)])) /\
+  pdb fdb unit Z (fst (fee_run_shared px_node [(Keep, px_b); (Keep, px_b); (Keep, px_b)]))
+    <> pdb fdb unit Z (fst (fee_run_shared px_node [(Keep, px_b); (Keep, px_b); (NewProcess, px_b)])).
+Proof. exact shared_one_breaks_process_restart_refuted. Qed.
+Print Assumptions C20_shared_one_breaks_process_restart_refuted.
+
+(** Under no relation on memories does that variant meet the obligation: it reads the process state. *)
+Theorem C20_shared_one_reads_process_state :
+  forall R : unit -> unit -> Prop, R tt tt ->
+    ~ step_reads_mem_through_not_proc fdb unit Z fblk (option Z) fee_step_shared R.
+Proof. exact shared_one_reads_process_state. Qed.
+Print Assumptions C20_shared_one_reads_process_state.
+
+(** What the correspondence check accepts: for every application instance of a history - in the
+    process of the continuous node or in a process of its own - every BeginBlock stored the base
+    fee that [begin_block] (the model of property C17, the step of [fee_step]) stores. *)
+Theorem C20_fee_case_ok_spec :
+  forall c : fee_case,
+    fee_case_ok c = true <->
+    Forall (fun seg : bool * list fee_obs =>
+              Forall (fun o : fee_obs => let '(p, h, mg, g, a) := o in
+                        exists s', begin_block (mkfs p g) h mg = Some s' /\ p_base_fee (fs_params s') = a /\ fs_bgw s' = g)
+                     (snd seg)) c.
+Proof. exact fee_case_ok_spec. Qed.
+Print Assumptions C20_fee_case_ok_spec.
